@@ -93,6 +93,14 @@ def a64_pool(thorough):
                     mems.append({"t": "mem", "base": base, "index": index, "ext": ext,
                                  "amount": amount})
             mems.append({"t": "mem", "base": base, "index": index, "ext": "sxtw"})
+    # register names in capitals inside a memory operand (the stack pointer alias included)
+    for base in ("SP", "X7"):
+        mems.append({"t": "mem", "base": base})
+        mems.append({"t": "mem", "base": base, "disp": 16, "hex": False})
+        mems.append({"t": "mem", "base": base, "disp": 16, "hex": False, "mode": "pre"})
+        mems.append({"t": "mem", "base": base, "disp": 16, "hex": False, "mode": "post"})
+        mems.append({"t": "mem", "base": base, "index": "X2"})
+        mems.append({"t": "mem", "base": base, "index": "x2", "ext": "lsl", "amount": 3})
     return regs, vec, preds, lists, imms, conds, labels, mems
 
 
